@@ -64,6 +64,10 @@ func init() {
 		run := evid.NewRun("C04", tier)
 		mc := modelCheck("MC_Session", "MC_Session.cfg", 16)
 		gs := dumpEdges("MC_Session", "Dump_Session.cfg")
+		emc := modelCheck("MC_Err", "MC_Err.cfg", 16)
+		mc.Distinct += emc.Distinct
+		mc.Generated += emc.Generated
+		gs = append(gs, dumpEdges("MC_Err", "Dump_Err.cfg")...)
 		st := tourAll(run, gs, 0)
 		per, maxLen := 150, 25
 		if tier == "thorough" {
